@@ -340,6 +340,10 @@ func runExpr(c Case, res *pbt.Result) {
 		ec := &evalCtx{row: r}
 		v := ec.eval(c.Expr)
 		exps[i] = exp{v: v, weak: ec.sawErr || ill || (ec.negZero && ec.diffFn), why: ec.why}
+		if w, ok := r["wild"]; ok && w.B {
+			exps[i].weak = true // text in a numeric column: the row's own value is not fixed, only crash-freedom
+			res.Class("wild-row")
+		}
 		if ec.negZero && ec.diffFn {
 			res.Count("weak-rows-negzero", 1)
 		}
